@@ -503,6 +503,29 @@ def literal_family(tier, seed):
         slice(1, 10, 2), slice(None), slice(1, 5), range(3), range(1, 10, 2), range(0, 5),
         len, int, print, object, type(None),
     ]
+    # containers that name the same inner object more than once (siblings, not cycles) and deeper nestings
+    T = (0, 0)
+    E_ = ()
+    L = [1]
+    values += [
+        [T, T], [E_, E_], (T, T), {"a": T, "b": T}, [L, L], {"k": [T, T], "m": (T,)}, [[[[1]]]], [T, [T, (T,)]], {1: L, 2: L},
+        [1.5, float("inf")], {"a": Decimal("1")}, [E.A], {IE.ONE},
+    ]
+
+    def literal_leaves_only(v):
+        t = type(v)
+        if t in (int, str, bytes, bool, type(None)):
+            return True
+        if t is float:
+            return v == v and v not in (float("inf"), float("-inf"))
+        if t in (list, tuple, set, frozenset):
+            return all(literal_leaves_only(x) for x in v)
+        if t is dict:
+            return all(literal_leaves_only(k) and literal_leaves_only(x) for k, x in v.items())
+        if t is bytearray:
+            return True
+        return False
+
     for v in values:
         try:
             expr = get_literal_expr(v)
@@ -510,7 +533,8 @@ def literal_family(tier, seed):
         except Exception as e:
             expr, err = None, f"{type(e).__name__}: {e}"
         emit({"kind": "literal", "value_type": type(v).__module__ + "." + type(v).__qualname__,
-              "value_repr": repr(v), "expr": expr, "error": err, "probe": encode_value(v)})
+              "value_repr": repr(v), "expr": expr, "error": err, "probe": encode_value(v),
+              "mutable_builtin": type(v) in (list, dict, set, bytearray), "literal_leaves_only": literal_leaves_only(v)})
     for v in [[], {}, (), [1], 0, None, True, IE.ONE, E.A, Decimal("1"), "x", Ellipsis, NotImplemented, 1.0]:
         try:
             s = is_singleton(v)
